@@ -17,3 +17,4 @@ import SquidModel.Properties.C30
 #print axioms SquidModel.C30.reparse_canonical_partial
 #print axioms SquidModel.C30.query_encoded_counterexample
 #print axioms SquidModel.C30.bracket_stripped_counterexample
+#print axioms SquidModel.C30.reparse_connect_partial
